@@ -351,6 +351,22 @@ def extra_checks(rng, tier, g, info):
     info["soak_derivations"] = pumped
 
 
+def literal_str_ops(txt):
+    """string literals of the source (markers, separators, key names; placeholders filled in) as passphrase: the report
+    and its JSON text must treat them like any other text"""
+    try:
+        n_ = nf(txt)
+        txt.encode("utf-8")
+    except Exception:
+        return
+    w = "mn:%s:%s:%s:%s:0" % (sx(MN), sx(MN), sx(txt), sx(n_))
+    yield "json_text %s 0 0 1 4" % w
+    yield "json_text %s 0 0 2 -" % w
+
+
+LITERAL_STR_BUDGET = 60
+
+
 def literal_ops(lit):
     """account numbers and row indexes equal to the integer literals of the source (purpose numbers, coin types, …)"""
     w = "seedb:%s:%s" % (hx(bytes(range(16, 48))), "01"[lit % 2])
